@@ -112,6 +112,9 @@ Proof.
   - pose proof (broadcast_reqs A cfg h now n msg (seq 0 (c_nnodes cfg))) as Hb.
     destruct (broadcast A cfg h now n msg (seq 0 (c_nnodes cfg))) as [h1 q]. simpl.
     destruct Hb as (_ & B1 & B2 & _). unfold pend_ok. rewrite B1, B2. exact Hok.
+  - pose proof (broadcast_reqs A cfg h now n msg (seq 0 (c_nnodes cfg))) as Hb.
+    destruct (broadcast A cfg h now n msg (seq 0 (c_nnodes cfg))) as [h1 q]. simpl.
+    destruct Hb as (_ & B1 & B2 & _). unfold pend_ok. rewrite B1, B2. exact Hok.
 Qed.
 
 Lemma do_actions_pend_ok h now n acts : pend_ok h -> pend_ok (fst (fst (do_actions A cfg h now n acts))).
@@ -355,7 +358,7 @@ Proof. reflexivity. Qed.
 Definition node_scoped (a : action F) : bool :=
   match a with
   | ASetTimer _ _ | ACancel _ | AGoto _ | AGotoGeo _ | ASetSpeed _ | ASetRange _ | ASetFlag _ => true
-  | ASend _ _ | ABroadcast _ => false
+  | ASend _ _ | ABroadcast _ | ABcastDst _ _ => false
   end.
 
 Definition pend_of (y : nat) (l : list (nat * nat * N)) : list (nat * nat * N) :=
